@@ -33,6 +33,7 @@ type metricT struct {
 	name    int64
 	present bool
 	util    int64 // permille
+	rv      int64 // history stream only: NodeMetrics.ResourceVersion ("" when 0); ignored by the model
 }
 type argT struct{ k, v int64 }
 type polT struct {
@@ -72,8 +73,12 @@ func (in *input) tokens() []int64 {
 			out = append(out, m.util)
 		}
 	}
-	out = append(out, int64(len(in.specs)))
-	for _, s := range in.specs {
+	return append(out, encSpecs(in.specs)...)
+}
+
+func encSpecs(specs []specT) []int64 {
+	out := []int64{int64(len(specs))}
+	for _, s := range specs {
 		out = append(out, s.name, s.cpumin, s.cpumax, vh.B(s.prefer), s.minn, s.maxn)
 		out = append(out, encArgs(s.args)...)
 		out = append(out, int64(len(s.pols)))
@@ -116,6 +121,14 @@ func decode(t []int64) *input {
 		}
 		in.metrics = append(in.metrics, m)
 	}
+	in.specs = r.specs()
+	if r.i != len(t) {
+		panic("harness: trailing tokens")
+	}
+	return in
+}
+
+func (r *tokReader) specs() (out []specT) {
 	for i, n := 0, int(r.next()); i < n; i++ {
 		s := specT{name: r.next(), cpumin: r.next(), cpumax: r.next()}
 		s.prefer = r.next() != 0
@@ -126,12 +139,9 @@ func decode(t []int64) *input {
 			p.args = r.args()
 			s.pols = append(s.pols, p)
 		}
-		in.specs = append(in.specs, s)
+		out = append(out, s)
 	}
-	if r.i != len(t) {
-		panic("harness: trailing tokens")
-	}
-	return in
+	return out
 }
 
 // ---------- model terms -> real objects ----------
@@ -248,7 +258,7 @@ func buildProvider(in *input, variant int) *stubProvider {
 			p.m[nodeName(m.name)] = nil
 			return
 		}
-		p.m[nodeName(m.name)] = &sharding.NodeMetrics{NodeName: nodeName(m.name), CPUUtilization: permille(m.util)}
+		p.m[nodeName(m.name)] = &sharding.NodeMetrics{NodeName: nodeName(m.name), CPUUtilization: permille(m.util), ResourceVersion: rvString(m.rv)}
 	}
 	if variant == 0 {
 		for i := len(in.metrics) - 1; i >= 0; i-- {
@@ -266,8 +276,12 @@ func buildProvider(in *input, variant int) *stubProvider {
 
 func buildNodes(in *input) []*corev1.Node {
 	out := make([]*corev1.Node, 0, len(in.nodes))
+	rvOf := map[int64]int64{}
+	for i := len(in.metrics) - 1; i >= 0; i-- {
+		rvOf[in.metrics[i].name] = in.metrics[i].rv
+	}
 	for _, n := range in.nodes {
-		node := &corev1.Node{ObjectMeta: metav1.ObjectMeta{Name: nodeName(n.name)}}
+		node := &corev1.Node{ObjectMeta: metav1.ObjectMeta{Name: nodeName(n.name), ResourceVersion: rvString(rvOf[n.name])}}
 		switch {
 		case n.warm:
 			node.Labels = map[string]string{"node.volcano.sh/warmup": "true", "zone": "a"}
@@ -434,6 +448,9 @@ func outcomeOf(in []int64) outcome {
 }
 
 func run(sel int, in []int64) []int64 {
+	if sel == 5 {
+		return histRun(in)
+	}
 	if sel < 1 || sel > 4 {
 		panic(fmt.Sprintf("harness: unknown selector %d", sel))
 	}
@@ -469,6 +486,10 @@ const sigListerOrder = ""
 func laws(sel int, in, got []int64, law func(lsel int, lin []int64, sig string)) {
 	if sel == 4 {
 		return // the selector-1/3 case over the same tokens carries the laws
+	}
+	if sel == 5 {
+		histLaws(in, law)
+		return
 	}
 	o := outcomeOf(in)
 	got = o.got
@@ -829,6 +850,7 @@ type genCase struct {
 	id, kind string
 	sel      int
 	in       *input
+	hist     *histT // selector 5 only
 	toks     []int64
 }
 
@@ -906,7 +928,7 @@ func gen(rng *vh.Rng, n int, emit func(id string, sel int, in []int64, kind stri
 	if os.Getenv("C17_OLD_BATCHED") == "1" {
 		sel = 2 // development aid: compare a pre-fix worktree with the model of the pre-fix batched path
 	}
-	kinds := []string{"small", "threshold", "large", "large", "malformed", "near-tie"}
+	kinds := []string{"small", "threshold", "large", "history", "malformed", "near-tie", "large"}
 	var cases []genCase
 	rejected := 0
 	// fixed cases first: the F6 witnesses
@@ -941,6 +963,10 @@ func gen(rng *vh.Rng, n int, emit func(id string, sel int, in []int64, kind stri
 	for i := 0; i < n; i++ {
 		r := rng.Fork()
 		kind := kinds[i%len(kinds)]
+		if kind == "history" {
+			cases = append(cases, genCase{id: fmt.Sprintf("g%d", i), kind: kind, sel: 5, hist: genHistory(r)})
+			continue
+		}
 		if kind == "near-tie" {
 			cases = append(cases, genCase{id: fmt.Sprintf("g%d", i), kind: kind, sel: 3, in: genNearTie(r)})
 			continue
@@ -962,8 +988,13 @@ func gen(rng *vh.Rng, n int, emit func(id string, sel int, in []int64, kind stri
 		cases = append(cases, genCase{id: fmt.Sprintf("g%d", i), kind: kind, sel: sel, in: in})
 	}
 	// run the real code on a small worker pool (each batched run sleeps), then emit in order
+	cases = append(fixedHistories(), cases...)
 	for i := range cases {
-		cases[i].toks = cases[i].in.tokens()
+		if cases[i].sel == 5 {
+			cases[i].toks = cases[i].hist.tokens()
+		} else {
+			cases[i].toks = cases[i].in.tokens()
+		}
 	}
 	var wg sync.WaitGroup
 	work := make(chan int)
@@ -972,7 +1003,11 @@ func gen(rng *vh.Rng, n int, emit func(id string, sel int, in []int64, kind stri
 		go func() {
 			defer wg.Done()
 			for i := range work {
-				memo.Store(key(cases[i].toks), compute(cases[i].toks))
+				if cases[i].sel == 5 {
+					histMemo.Store(key(cases[i].toks), computeHist(cases[i].toks))
+				} else {
+					memo.Store(key(cases[i].toks), compute(cases[i].toks))
+				}
 			}
 		}()
 	}
@@ -982,6 +1017,10 @@ func gen(rng *vh.Rng, n int, emit func(id string, sel int, in []int64, kind stri
 	close(work)
 	wg.Wait()
 	for _, c := range cases {
+		if c.sel == 5 {
+			emitHistory(c, emit)
+			continue
+		}
 		o, _ := memo.Load(key(c.toks))
 		got := o.(outcome).got
 		assigned := 0
@@ -1019,4 +1058,11 @@ func gen(rng *vh.Rng, n int, emit func(id string, sel int, in []int64, kind stri
 
 func main() {
 	vh.Harness{Run: run, Laws: laws, Gen: gen}.Main()
+}
+
+func rvString(rv int64) string {
+	if rv == 0 {
+		return ""
+	}
+	return "rv" + strconv.FormatInt(rv, 10)
 }
